@@ -286,9 +286,50 @@ func sqlLengthBoundaries(emit func(string)) {
 			emit("union " + strings.Repeat("a", la) + " " + strings.Repeat("b", lb))
 		}
 	}
+	// runs of one byte at the lengths where a bounded counter, a clipped value or a buffer could flip:
+	// escape characters and delimiters before a delimiter, repeated operators, NULs, white space
+	for _, emitRun := range []func(string){emit} {
+		runByteFamilies(emitRun)
+	}
+	// long words at offsets past the middle of the input (a window computed from the wrong origin)
+	for _, lw := range []int{31, 32, 33, 34, 40, 64, 65} {
+		for _, lp := range []int{1, 8, 31, 32, 33, 40, 64, 70} {
+			for _, tail := range []string{"", "select", "union", "or"} {
+				w := strings.Repeat("b", lw) + tail
+				emit(strings.Repeat("a", lp) + " " + w)
+				emit(strings.Repeat("1", lp) + " " + w + " " + w)
+				emit("'" + strings.Repeat("a", lp) + "' " + w)
+			}
+		}
+	}
 	emit("is not distinct from")
 	emit("not similar to")
 	emit("natural left outer join")
 	emit("current_timestamp(")
 	emit("intersect all select")
+}
+
+var runLengths = []int{1, 2, 3, 4, 5, 6, 7, 8, 15, 16, 17, 30, 31, 32, 33, 34, 35, 36, 63, 64, 65, 66, 127, 128, 129, 255, 256, 257}
+
+// runs of a single byte inside and around quoted literals and at token level
+func runByteFamilies(emit func(string)) {
+	for _, k := range runLengths {
+		for _, d := range []string{"'", "\"", "`"} {
+			bs := strings.Repeat("\\", k)
+			dd := strings.Repeat(d, k)
+			for _, t := range []string{
+				d + bs + d + "x" + d + "1", d + bs + d + " or 1=1 --" + d, bs + d + "x" + d + "1", "a" + bs + d + "x" + d + "1",
+				d + "a" + bs + d + " union select 1", d + dd + "x" + d + "1", dd + "1", "1" + dd + " or " + dd,
+				d + bs + dd + "x", "q'(" + strings.Repeat(")", k) + "'1", "$$" + strings.Repeat("$", k) + "1", "$a$" + strings.Repeat("$a", k) + "$1",
+			} {
+				emit(t)
+			}
+		}
+		for _, b := range []string{"\\", "-", "/", "*", "#", "@", "(", ")", ".", ";", "!", "\x00", " ", "\xa0", "{", "}", "e", "1"} {
+			r := strings.Repeat(b, k)
+			emit(r)
+			emit("1" + r + "1")
+			emit("1 or " + r + " 1")
+		}
+	}
 }
